@@ -42,6 +42,9 @@ class Cfg(object):
         self.ite_minmax = True         # builtin min/max as ITE terms instead of forks
         self.path_deadline_s = 600     # hard limit per path (worker gets killed)
         self.logic = None
+        self.home = None               # property that owns the un-prefixed obligation labels of this harness body
+        self.pid = None                # property being decided: obligations labelled 'Cxx:...' of other properties are skipped
+        self.refine_ms = 6000          # NRA budget for refining a counterexample found under the UF abstraction
         self.true_first = True
         self.tactic = None
         for k, v in kw.items():
@@ -109,6 +112,9 @@ class Path(object):
         self.reached = set()
         self.ghost = {}
         self.ndec = 0
+        self.nrefine = 0
+        self.exact = []        # exact meanings of abstracted (UF) operations, used to refine counterexamples
+        self.pid = getattr(cfg, 'pid', None)
 
     # ---- naming -------------------------------------------------------------------
     def fresh_name(self, base):
@@ -336,6 +342,10 @@ class Path(object):
 
     def prove(self, term, label, detail=None, extra_eval=None):
         """Obligation: pc => term.  Returns True if discharged."""
+        if self.pid is not None:
+            own = label[:3] if (len(label) > 4 and label[0] == 'C' and label[3] == ':') else (self.cfg.home or self.pid)
+            if own != self.pid:
+                return True
         self.reached.add(label)
         if isinstance(term, bool):
             if term:
@@ -360,6 +370,18 @@ class Path(object):
         if rs == 'unsat':
             rec['result'] = 'discharged'
         elif rs == 'sat':
+            refined = None
+            if self.cfg.uflin and self.exact and self.nrefine < 3:
+                self.nrefine += 1
+                refined = self._refine(term, terms)
+            if refined is not None and refined[0] == 'unsat':
+                rec['result'] = 'discharged'
+                rec['refined'] = True
+                self.obls.append(rec)
+                return True
+            if refined is not None and refined[0] == 'sat':
+                vals = refined[1]
+                rec['refined'] = True
             rec['result'] = 'cex'
             rec['model'] = dict(zip(names + xnames, vals))
             rec['trace'] = list(self.trace)
@@ -368,6 +390,19 @@ class Path(object):
             self.inconclusive = True
         self.obls.append(rec)
         return rs == 'unsat'
+
+    def _refine(self, term, terms):
+        """re-ask pc and not term with the exact (nonlinear) meaning of every abstracted operation, in a forked child"""
+        old_fork, old_to = self.cfg.fork_queries, self.cfg.qtimeout_ms
+        self.cfg.fork_queries, self.cfg.qtimeout_ms = True, self.cfg.refine_ms
+        try:
+            rs, vals, _ = self.check([z3.Not(term)] + list(self.exact), eval_terms=terms)
+        finally:
+            self.cfg.fork_queries, self.cfg.qtimeout_ms = old_fork, old_to
+        if rs == 'unknown':
+            self.unknowns -= 1
+            return None
+        return rs, vals
 
     def fail(self, label, detail=None, extra_eval=None):
         """An unconditional violation on this path (e.g. a forbidden exception): get a model of pc."""
